@@ -17,10 +17,14 @@ of a field at (e, p) and the WHOLE plain array (a constant tensor) go through th
 reduction that consumes an element / Gauss-point axis is the plain numpy reduction of the raw array.  The result
 must be a FeArray exactly when the model says the (Ne, nPg) axes survive.
 
+Tensor ranks 0-4 (rank 3 and 4 for d <= 3).  Two-output ufuncs (np.divmod / builtin divmod, np.modf) are compared output by
+output.  The inherited ndarray methods that move or drop axes (flatten, squeeze, swapaxes; family tensor_method, next to
+trace / transpose) are enumerated for the typing rule.
+
 Outside the statement (not enumerated): elementwise operations between operands of different NON-ZERO tensor
-rank (alignment is a convention), matrix products involving rank 0 / rank > 2 operands, ndarray methods FeArray
-does not override (flatten, squeeze, indexing...).  A raised exception is `undefined` (counted) unless the term
-belongs to a family the property names (arithmetic, matrix product, contractions, transpose, reductions,
+rank (alignment is a convention), matrix products (@) involving rank 0 / rank > 2 operands, indexing.
+A raised exception is `undefined` (counted) unless the term
+belongs to a family the property names (arithmetic, matrix product, contractions, tensor product, transpose, reductions,
 det/inv/trace, typing of reshape/ravel/integrate, accepted broadcast forms) AND the model defines its result.
 """
 from __future__ import annotations
@@ -117,14 +121,14 @@ def m_matmul(A, B):
 
 
 def m_dot(A, B):
-    if A.rank not in (1, 2, 4) or B.rank not in (1, 2, 4) or "scalar" in (A.kind, B.kind):
-        raise Undefined("single contraction needs tensors of rank 1, 2 or 4")
+    if A.rank not in (1, 2, 3, 4) or B.rank not in (1, 2, 3, 4) or "scalar" in (A.kind, B.kind):
+        raise Undefined("single contraction needs tensors of rank 1 to 4")
     return _loop(lambda a, b: np.tensordot(a, b, axes=1), A, B, floor=A.mag * B.mag)
 
 
 def m_ddot(A, B):
-    if A.rank not in (2, 4) or B.rank not in (2, 4) or "scalar" in (A.kind, B.kind):
-        raise Undefined("double contraction needs tensors of rank 2 or 4")
+    if A.rank not in (2, 3, 4) or B.rank not in (2, 3, 4) or "scalar" in (A.kind, B.kind):
+        raise Undefined("double contraction needs tensors of rank 2 to 4")
     return _loop(lambda a, b: np.tensordot(a, b, axes=2), A, B, floor=A.mag * B.mag)
 
 
@@ -214,6 +218,14 @@ def m_reshape(A, shape, order="C"):
     res = np.reshape(A.a, shape, order=order)
     keeps = res.ndim >= 2 and res.shape[:2] == A.a.shape[:2]
     return MV("fe" if keeps else "plain", res)
+
+
+def m_squeeze(A):
+    """every size-1 axis removed: still a field exactly when neither the element nor the Gauss-point axis is one of them"""
+    if A.kind != "fe":
+        raise Undefined("not a field")
+    Ne, nPg = A.a.shape[:2]
+    return MV("fe" if Ne > 1 and nPg > 1 else "plain", np.squeeze(A.a))
 
 
 def m_permute(A, perm):
@@ -315,7 +327,8 @@ class Term:
 # families in which the property does not promise a result (an exception is `undefined`, a returned value is compared)
 # "arith_list": a constant tensor written as a Python list is an array-like, not a plain array: a refusal (exception) is not judged,
 # a returned value is
-UNPROMISED = {"TensorProd", "Norm", "Normalize", "np_function", "np_axes", "arith_list"}
+# TensorProd (documented operands: FeArray or ndarray, both vectors or both matrices) is promised: a plain array is a constant tensor
+UNPROMISED = {"Norm", "Normalize", "np_function", "np_axes", "arith_list"}
 
 
 def _t1(fam, tpl, X, impl, model):
@@ -359,7 +372,7 @@ def scalar_leaf(name, sig, val):
 
 
 def ranks_for(d):
-    return (0, 1, 2, 4) if d <= 3 else (0, 1, 2)
+    return (0, 1, 2, 3, 4) if d <= 3 else (0, 1, 2)
 
 
 def make_leaves(Ne, nPg, d):
@@ -391,8 +404,8 @@ def make_leaves(Ne, nPg, d):
     return L
 
 
-FE_PRIMARIES = ["F0", "F1", "F2", "F4", "F0c", "F1c", "F2c", "F4c", "F0e", "F1e", "F2e", "F4e", "F0p", "F1p", "F2p",
-                "F4p", "Z1", "Z2"]
+FE_PRIMARIES = ["F0", "F1", "F2", "F3", "F4", "F0c", "F1c", "F2c", "F3c", "F4c", "F0e", "F1e", "F2e", "F3e", "F4e", "F0p", "F1p", "F2p",
+                "F3p", "F4p", "Z1", "Z2"]
 
 
 # -------------------------------------------------------------------------------------------------
@@ -433,6 +446,14 @@ def binary_terms(X, Y, lvl=2):
         if not anyfield and lvl >= 1:
             for nm, uf in (_UFUNC2 if lvl >= 2 else _UFUNC2[:1]):
                 yield _t2("ufunc2", nm + "({a},{b})", X, Y, uf, lambda A, B, uf=uf: m_elementwise(uf, A, B, True))
+            # ufuncs with TWO outputs (quotient and remainder), each output compared with the plain numpy operation at each (e, p);
+            # the builtin divmod(a, b) is the operator spelling of the same ufunc
+            if lvl >= 2:
+                for k in (0, 1):
+                    yield _t2("ufunc2", "np.divmod({a},{b})" + f"[{k}]", X, Y, lambda a, b, k=k: np.divmod(a, b)[k],
+                              lambda A, B, k=k: m_elementwise(lambda a, b: np.divmod(a, b)[k], A, B, True))
+                    yield _t2("ufunc2", "divmod({a},{b})" + f"[{k}]", X, Y, lambda a, b, k=k: divmod(a, b)[k],
+                              lambda A, B, k=k: m_elementwise(lambda a, b: np.divmod(a, b)[k], A, B, True))
             if _is_fe(X) and rx >= ry and (_is_fe(Y) or (Y.sig[0] == "P" and Y.sig != "PQ")):
                 yield _t2("ufunc2", "np.multiply({a},{b},out=)", X, Y, _multiply_out, lambda A, B: m_elementwise(np.multiply, A, B))
         # the same constant tensor written as a (nested) Python list, and the ufunc spelling with a Field operand
@@ -461,9 +482,9 @@ def binary_terms(X, Y, lvl=2):
             if not anyfield:
                 yield _t2("matmul", "np.matmul({a},{b})", X, Y, np.matmul, m_matmul)
         if _is_fe(X):
-            if rx in (1, 2, 4) and ry in (1, 2, 4):
+            if rx in (1, 2, 3, 4) and ry in (1, 2, 3, 4):
                 yield _t2("dot", "{a}.dot({b})", X, Y, lambda a, b: a.dot(b), m_dot)
-            if rx in (2, 4) and ry in (2, 4):
+            if rx in (2, 3, 4) and ry in (2, 3, 4):
                 yield _t2("ddot", "{a}.ddot({b})", X, Y, lambda a, b: a.ddot(b), m_ddot)
         if not anyfield and rx == ry and rx in (1, 2):
             from EasyFEA.FEM._linalg import TensorProd
@@ -588,9 +609,21 @@ def unary_terms(X, lvl=2):
     yield _t1("arith", "abs({a})", X, abs, lambda A: m_unary(np.abs, A))
     yield _t1("ufunc1", "np.exp({a})", X, np.exp, lambda A: m_unary(np.exp, A))
     yield _t1("ufunc1", "np.sign({a})", X, np.sign, lambda A: m_unary(np.sign, A))
+    for k in (0, 1):  # a ufunc with two outputs (fractional and integral part)
+        yield _t1("ufunc1", "np.modf({a})" + f"[{k}]", X, lambda x, k=k: np.modf(x)[k], lambda A, k=k: m_unary(lambda s_: np.modf(s_)[k], A))
     yield _t1("ufunc1", "({a} > 0)", X, lambda x: x > 0, lambda A: m_unary(lambda s: s > 0, A))
     yield _t1("np_function", "np.where({a}>0,{a},0.0)", X, lambda x: np.where(x > 0, x, 0.0),
               lambda A: m_unary(lambda s: np.where(s > 0, s, 0.0), A))
+    if lvl >= 2:
+        # the other ndarray methods the array type inherits that move or drop axes (typing rule of the statement: still a field exactly
+        # when the (Ne, nPg) axes are kept): flatten (the copying twin of ravel), squeeze, swapaxes
+        yield _t1("tensor_method", "{a}.flatten()", X, lambda x: x.flatten(), lambda A: m_reshape(A, (-1,)))
+        yield _t1("tensor_method", "{a}.squeeze()", X, lambda x: x.squeeze(), m_squeeze)
+        for i, j in itertools.combinations(range(n), 2):
+            perm = list(range(n))
+            perm[i], perm[j] = perm[j], perm[i]
+            yield _t1("tensor_method", "{a}.swapaxes(" + f"{i},{j})", X, lambda x, i=i, j=j: x.swapaxes(i, j),
+                      lambda A, perm=tuple(perm): m_permute(A, perm))
     yield _t1("T", "{a}.T", X, lambda x: x.T, lambda A: m_unary(np.transpose, A))
     if r_ == 2:
         yield _t1("tensor_method", "{a}.transpose()", X, lambda x: x.transpose(), lambda A: m_unary(np.transpose, A, ranks=(2,)))
@@ -941,26 +974,29 @@ def describe(tier, seed):
                 "implementation's dispatch reads nothing else and values are generic. non-trivial = at least one term whose model "
                 "is defined was compared; distinct = fingerprint of all outcomes of the case; states = merged depth-1 results",
         "exhaustive": True,
-        "bound": "depth 1: all shapes {1,2,3}^3 + d=6 with (Ne,nPg) in {1,2,3}^2 + (6,6,6),(2,6,6),(6,2,6),(6,6,2); tensor ranks 0,1,2,4 "
-                 "(rank 4 for d<=3; d=6 = Kelvin-Mandel vectors/matrices); every operand kind, order, spelling and axis argument. depth 2: "
+        "bound": "depth 1: all shapes {1,2,3}^3 + d=6 with (Ne,nPg) in {1,2,3}^2 + (6,6,6),(2,6,6),(6,2,6),(6,6,2); tensor ranks 0,1,2,3,4 "
+                 "(ranks 3 and 4 for d<=3; d=6 = Kelvin-Mandel vectors/matrices); every operand kind, order, spelling and axis argument. depth 2: "
                  + ("all shapes, all primaries, every reducer and every int axis / listed pairs, 23 partner leaves"
                     if tier == "thorough" else
                     f"{len(DEPTH2_QUICK)} shapes (one per coincidence pattern), primaries {DEPTH2_QUICK_PRIMARIES}, reducers "
                     f"{_METHOD_REDUCERS_Q}+ptp+add.reduce with non-negative axes, 14 partner leaves")
                  + "; Field objects: 9 (element type, rule) pairs x Ne in {1,2,3}, depth 1-2",
-        "alphabet": {"shapes": len(shapes(tier)), "fe_leaf_forms": "rank{0,1,2,4} x {full,(1,1),(Ne,1),(1,nPg)} + second full + zero-sprinkled",
-                     "plain_leaves": "0-d, (d,), (d,d), (d,d,d,d), (Ne,nPg)-shaped, np.float64, float, int",
+        "alphabet": {"shapes": len(shapes(tier)), "fe_leaf_forms": "rank{0,1,2,3,4} x {full,(1,1),(Ne,1),(1,nPg)} + second full + zero-sprinkled",
+                     "plain_leaves": "0-d, (d,), (d,d), (d,d,d), (d,d,d,d), (Ne,nPg)-shaped, np.float64, float, int",
                      "operators": "+ - * / ** unary-, abs, @, np.matmul, dot, ddot, T, 11 reducers (method/np, every axis), np.median/average/ptp/"
                                   "nansum, ufunc.reduce, reshape, ravel, integrate, Det, Inv, Trace, Transpose, TensorProd, Norm, Normalize, "
-                                  "broadcast, np.maximum/hypot/greater/subtract/divide, out=, where, einsum, concatenate, stack, swapaxes, transpose",
+                                  "broadcast, np.maximum/hypot/greater/subtract/divide, two-output ufuncs np.divmod / divmod() / np.modf, out=, where, "
+                                  "einsum, concatenate, stack, swapaxes, transpose, inherited methods trace/transpose/flatten/squeeze/swapaxes",
                      "field_configs": len(FIELD_CONFIGS)},
         "assumptions": [
             "values are seeded generic arrays (|x| in [0.5,1.5], random signs; Z* leaves hold exact zeros): the enumeration is over shapes, "
             "operators, operand kinds and operand orders",
-            "elementwise operations between different non-zero tensor ranks, matrix products with rank 0 or rank > 2 operands, and ndarray "
-            "methods FeArray does not override (flatten, squeeze, indexing) are outside the statement and not enumerated",
+            "elementwise operations between different non-zero tensor ranks, matrix products (@) with rank 0 or rank > 2 operands, and "
+            "indexing are outside the statement and not enumerated; the inherited ndarray methods flatten / squeeze / swapaxes are "
+            "enumerated for the typing rule only (family tensor_method)",
             "a raised exception counts as `undefined` unless the term is one of the operations the property names and the model defines it "
-            "(then check='raises'); families TensorProd, Norm, Normalize, np_function (where, einsum, concatenate, linalg.det/inv) and "
+            "(then check='raises'; TensorProd with its documented operands - FeArray or ndarray, two vectors or two matrices - is one of "
+            "them); families Norm, Normalize, np_function (where, einsum, concatenate, linalg.det/inv) and "
             "np_axes (swapaxes, transpose, stack) are compared when they return and never reported for raising",
             "FeArray.broadcast with tensor_ndim=0 is specified by shape in the order of its docstring ((Ne,nPg,...) first, then 1-D (Ne,), "
             "then 1-D (nPg,), else constant): a 1-D coefficient with Ne == nPg is per-element",
